@@ -367,7 +367,9 @@ def run(ck: common.Check):
     ck.cov["rule"] = (
         "Programs: progen grammar (sizes/index/bool/scalar/tensor/window args, assertions, nested for/if/else, allocs, "
         "windows and windows of windows, calls, config, / and % on possibly negative operands) x 0-3 random scheduling "
-        "operations from sched.candidates; plus synthetic LoopIR skeletons (every third malformed: re-used Syms, re-bound "
+        "operations from sched.candidates; two fifths of the programs come from c08_shapes (last use of an allocation through a "
+        "window / window of a window / call, allocations in else branches and loop bodies, strided windows, const and non-const "
+        "callee formals, stack and static memories); plus synthetic LoopIR skeletons (every third malformed: re-used Syms, re-bound "
         "windows, Free in input). Inputs of the sanitizer search: sizes 1..8 and constants near those in assertions, index "
         "arguments -3..7, window arguments with strides x1..x3 and offsets, buffers of exactly the addressed size, 4-6 inputs "
         "per program, assertions evaluated before use. Model side evaluated with vm_compute on the same exported terms.")
@@ -377,7 +379,10 @@ def run(ck: common.Check):
         "hand-written models coq/MemSafe/ModelMem.v (MemoryAnalysis), ModelWrites.v (GetWrites, const decisions), ModelDiv.v "
         "(lift_to_cir, simplify_cir, comp_cir, comp_e division lowering): agreement with the Python is sampled, not proved",
         "harness/c08_export.py (LoopIR -> Gallina terms, monkey-patched observers of lift_to_cir/simplify_cir/comp_cir/comp_e), "
-        "c08_cgen.py (driver generation), c08_synth.py",
+        "c08_cgen.py (driver generation), c08_synth.py, c08_shapes.py, c08_impl.py (incl. the model-independent static check of "
+        "the real MemoryAnalysis output)",
+        "SpecExec.v: the execution semantics (live set, faults) in which C08_runs_clean / C08_exec_certificate are stated is a "
+        "statement-skeleton abstraction of the C program: branches and trip counts unconstrained, data not modelled",
         "C int / int_fast32_t modelled as unbounded Z: signed overflow of index arithmetic and the narrowing of int_fast32_t "
         "arguments to the helpers' `int` parameters are outside the theorems (UBSan exercises them on the sampled inputs only)",
         "the `nn` flags (range analysis answers) are assumed sound in C08_divmod_choice: that is property C13",
